@@ -46,3 +46,10 @@ CASES += [
       "            if k == 0:\n                temp = prms[\"T\"]\n            elif temp != prms[\"T\"]:",
       "            if k == 0:\n                temp = temperature if temperature is not None else prms[\"T\"]\n            elif temp != prms[\"T\"]:"),
 ]
+
+CASES += [
+    m("eigenbasis transformation done in place on the shared system-bath operators", "C06-R6", R,
+      "        KI = self.sbi.KK.copy()", "        sb = self.sbi\n        KI = sb.KK"),
+    t("operators copied with numpy.array", R,
+      "        KI = self.sbi.KK.copy()", "        KI = numpy.array(self.sbi.KK)"),
+]
